@@ -1,0 +1,42 @@
+//! Verification-only pause points (cargo feature `verif-hooks`, off by default).
+//!
+//! With the feature enabled, `pause("<point>")` sleeps for the number of milliseconds
+//! configured for that point in the environment variable `BRUSH_VERIF_PAUSES`
+//! (`point=ms,point.index=ms,...`). Without the variable it does nothing.
+
+use std::collections::HashMap;
+use std::sync::LazyLock;
+
+static PAUSES: LazyLock<HashMap<String, u64>> = LazyLock::new(|| {
+    let mut map = HashMap::new();
+    if let Ok(spec) = std::env::var("BRUSH_VERIF_PAUSES") {
+        for item in spec.split(',') {
+            if let Some((name, ms)) = item.split_once('=') {
+                if let Ok(ms) = ms.trim().parse::<u64>() {
+                    map.insert(name.trim().to_owned(), ms);
+                }
+            }
+        }
+    }
+    map
+});
+
+/// Sleeps at the named pause point if a delay was configured for it.
+pub fn pause(point: &str) {
+    if let Some(ms) = PAUSES.get(point) {
+        std::thread::sleep(std::time::Duration::from_millis(*ms));
+    }
+}
+
+/// Like [`pause`], but first looks for `point.index`, then for `point`.
+pub fn pause_indexed(point: &str, index: usize) {
+    if PAUSES.is_empty() {
+        return;
+    }
+    let indexed = std::format!("{point}.{index}");
+    if PAUSES.contains_key(indexed.as_str()) {
+        pause(indexed.as_str());
+    } else {
+        pause(point);
+    }
+}
